@@ -104,6 +104,8 @@ var selfMutants = []selfMutant{
 	{Rule: "R-ERRMOVE", File: "css/lex.go", Only: "css", Old: "	case 0:\n		if l.r.Err() != nil {\n			return ErrorToken, nil\n		}\n", New: "	case 0:\n		return ErrorToken, nil\n", Props: []string{"C01"}, Why: "any NUL byte is taken for the end of input"},
 	// behaviour-preserving rewrites that must stay silent (regression guards for the precision work of DESIGN.md section 13)
 	{Rule: "R-INPUT", File: "input.go", Silent: true, Old: "	if z.err != nil {\n		return z.err\n	} else if len(z.buf)-1 <= z.pos+pos {\n		return io.EOF\n	}\n	return nil\n}", New: "	switch {\n	case z.err != nil:\n		return z.err\n	case z.atEnd(pos):\n		return io.EOF\n	}\n	return nil\n}\n\nfunc (z *Input) atEnd(i int) bool {\n	return len(z.buf)-1 <= z.pos+i\n}", Why: "PeekErr through a predicate helper and a tagless switch (behaviour-preserving)"},
+	{Rule: "R-WALK", File: "js/walk.go", Silent: true, Old: "		for i := 0; i < len(n.List); i++ {\n			item := &n.List[i]\n			if item.StaticBlock != nil {\n				Walk(v, item.StaticBlock)\n			} else if item.Method != nil {\n				Walk(v, item.Method)\n			} else {\n				Walk(v, &item.Field)\n			}\n		}\n", New: "		for i := range n.List {\n			switch item := &n.List[i]; {\n			case item.StaticBlock != nil:\n				Walk(v, item.StaticBlock)\n			case item.Method != nil:\n				Walk(v, item.Method)\n			default:\n				Walk(v, &item.Field)\n			}\n		}\n", Why: "class elements walked in a range loop with a tagless switch that has an init statement"},
+	{Rule: "R-WALK", File: "js/walk.go", Old: "		for i := 0; i < len(n.List); i++ {\n			item := &n.List[i]\n			if item.StaticBlock != nil {\n				Walk(v, item.StaticBlock)\n			} else if item.Method != nil {\n				Walk(v, item.Method)\n			} else {\n				Walk(v, &item.Field)\n			}\n		}\n", New: "		for i := range n.List {\n			switch item := &n.List[i]; {\n			case item.StaticBlock != nil:\n				Walk(v, item.StaticBlock)\n			default:\n				Walk(v, &item.Field)\n			}\n		}\n", Why: "the same switch form without the arm for methods"},
 	{Rule: "R-WALK", File: "js/walk.go", Silent: true, Old: "	case *FuncDecl:\n		Walk(v, &n.Body)\n		Walk(v, &n.Params)\n", New: "	case *FuncDecl:\n		walkFuncParts(v, &n.Body, &n.Params)\n", Why: "function parts walked by a helper that receives their addresses (behaviour-preserving)"},
 	{Rule: "R-JSONKEY", File: "json/parse.go", Silent: true, Old: "func (p *Parser) State() State {\n	return p.state[len(p.state)-1]\n}", New: "func (p *Parser) State() State {\n	return p.top()\n}\n\nfunc (p *Parser) top() State {\n	return p.state[len(p.state)-1]\n}", Why: "State() through an accessor of the top of the stack (behaviour-preserving)"},
 	// operator levels as data (peval.go): the arm reads its levels from a look-up
